@@ -7,6 +7,7 @@ import (
 	"encoding/hex"
 	"errors"
 	"fmt"
+	"io"
 	"strings"
 	"sync"
 	"sync/atomic"
@@ -678,6 +679,122 @@ func c11ServerChain(w *core.W, j int) {
 	w.NontrivialStr("server-chain", fmt.Sprint(j))
 }
 
+// c11PacedServerChain: a signed outgoing transfer whose second envelope is produced a few seconds after
+// the first (a large zone, a slow source). Each envelope is verified with the exported verifier the
+// moment it arrives, against the request's fudge of one second: a chain made by the library's own
+// sender is timely when its own receiver reads it. (A verdict needs less than 0.9 s between handing
+// the envelope to Transfer.Out and the verifier's return; otherwise the case is undecided.)
+func c11PacedServerChain(w *core.W, j int) {
+	g := model.NewGen(w.Rng(j))
+	r := g.R
+	alg := tsigAlgs[j%len(tsigAlgs)]
+	secret := g.Bytes(8 + r.IntN(40))
+	secretB64 := base64.StdEncoding.EncodeToString(secret)
+	keyName := model.Name{[]byte("paced-key"), []byte("example")}
+	provider := dns.VerifTsigSecretProvider(map[string]string{keyName.Pres(): secretB64})
+	const n = 2
+	pause := 2400 * time.Millisecond
+	ln := netsim.NewListener()
+	started := make(chan struct{})
+	done := make(chan error, 1)
+	feed := make(chan *dns.Envelope)
+	var status error
+	h := dns.HandlerFunc(func(rw dns.ResponseWriter, req *dns.Msg) {
+		status = rw.TsigStatus()
+		done <- new(dns.Transfer).Out(rw, req, feed)
+	})
+	srv := &dns.Server{Listener: ln, Handler: h, ReadTimeout: time.Hour, TsigSecret: map[string]string{keyName.Pres(): secretB64}, NotifyStartedFunc: func() { close(started) }}
+	serveErr := make(chan error, 1)
+	go func() { serveErr <- srv.ActivateAndServe() }()
+	select {
+	case <-started:
+	case <-time.After(20 * time.Second):
+		w.Inconclusive("paced-chain-server-did-not-start")
+		return
+	}
+	defer func() { srv.Shutdown(); <-serveErr }()
+	q := new(dns.Msg)
+	q.SetAxfr("zone.example.")
+	q.Id = uint16(0x6000 + j)
+	plain, _ := q.Pack()
+	qt := &model.TSIG{KeyName: keyName, Algorithm: mustName(alg), TimeSigned: uint64(time.Now().Unix()), Fudge: 1}
+	signedQ, reqMAC, err := qt.Sign(plain, secret, nil, false)
+	if err != nil {
+		return
+	}
+	cl, derr := ln.Dial()
+	if derr != nil {
+		w.Inconclusive("paced-chain-dial")
+		return
+	}
+	defer cl.Close()
+	cl.Write(frame(signedQ))
+	readFrame := func() ([]byte, bool) {
+		cl.SetReadDeadline(time.Now().Add(20 * time.Second))
+		var l [2]byte
+		if _, err := io.ReadFull(cl, l[:]); err != nil {
+			return nil, false
+		}
+		b := make([]byte, binary.BigEndian.Uint16(l[:]))
+		if _, err := io.ReadFull(cl, b); err != nil {
+			return nil, false
+		}
+		return b, true
+	}
+	prev := hex.EncodeToString(reqMAC)
+	wit := map[string]any{"alg": alg, "request": hx(signedQ), "pause_ms": pause.Milliseconds(), "request_fudge": 1}
+	for i := 0; i < n; i++ {
+		if i > 0 {
+			time.Sleep(pause)
+		}
+		env := &dns.Envelope{RR: []dns.RR{&dns.A{Hdr: dns.RR_Header{Name: fmt.Sprintf("h%d.zone.example.", i), Rrtype: 1, Class: 1, Ttl: 60}, A: []byte{10, 2, byte(i), byte(j)}}}}
+		t0 := time.Now()
+		select {
+		case feed <- env:
+		case err := <-done:
+			done <- err
+			w.Violation("C11/server-chain/write-error/"+alg, fmt.Sprintf("Transfer.Out ended before envelope %d was taken: %v (TsigStatus of the request: %v)", i, err, status), wit)
+			close(feed)
+			return
+		case <-time.After(20 * time.Second):
+			w.Inconclusive("paced-chain-envelope-not-taken")
+			return
+		}
+		e, ok := readFrame()
+		if !ok {
+			w.Inconclusive("paced-chain-envelope-not-received")
+			close(feed)
+			return
+		}
+		w.Eval(1)
+		verr := dns.TsigVerifyWithProvider(append([]byte(nil), e...), provider, prev, i > 0)
+		elapsed := time.Since(t0)
+		_, ts, _, okT := model.SplitTSIG(e)
+		if !okT {
+			w.Violation("C11/server-chain/envelope-unsigned/"+alg, fmt.Sprintf("envelope %d written by the server carries no TSIG record", i), wit)
+			close(feed)
+			return
+		}
+		if elapsed > 900*time.Millisecond {
+			w.Count("paced_chain_undecided", 1)
+		} else if verr != nil {
+			w.Violation("C11/server-chain/paced-envelope-rejected", fmt.Sprintf("envelope %d, handed to Transfer.Out %.1f s after the transfer began and verified %d ms later with the request's fudge of 1 s: %v (time signed %d, clock %d)", i, (time.Duration(i) * pause).Seconds(), elapsed.Milliseconds(), verr, ts.TimeSigned, time.Now().Unix()),
+				map[string]any{"alg": alg, "envelope": hx(e), "index": i})
+			close(feed)
+			return
+		} else {
+			w.Count("paced_chain_envelopes_verified", 1)
+		}
+		prev = hex.EncodeToString(ts.MAC)
+	}
+	close(feed)
+	select {
+	case <-done:
+	case <-time.After(20 * time.Second):
+	}
+	w.NontrivialStr("paced-server-chain", fmt.Sprint(j))
+}
+
 // c11PublicAPI drives the exported entry points as a caller has them - TsigGenerate / TsigVerify with a
 // base64 secret, TsigGenerateWithProvider / TsigVerifyWithProvider with a key table - at the wall-clock
 // time the verifier reads itself. Every verdict is bracketed: the clock is read before and after the
@@ -902,13 +1019,14 @@ func init() {
 		section{"concurrent", tiered(20, 400), c11Concurrent},
 		section{"server-chain", tiered(50, 1500), c11ServerChain},
 		section{"public-api", tiered(60, 1500), c11PublicAPI},
+		section{"paced-server-chain", tiered(4, 40), c11PacedServerChain},
 	)
 	core.Register(&core.Monitor{
 		ID: "C11", Level: "exploration", Plan: plan, Run: run,
 		Rule: "5 HMAC algorithms x messages (query-only and 1..5-record messages of all types) x secrets of 1..64 octets x {no request MAC, request MAC, request MAC + timers-only} x fudge {1,60,256,300,65535}; " +
 			"oracle = independent RFC 8945 digest (model encoder + crypto/hmac): output shape and MAC, window at t, t+-fudge, t+-(fudge+1), +-65536 multiples via the explicit-now hook; soundness under every single-bit flip (messages <= 160 octets, 200 sampled above), " +
-			"~25 field/context/structure alterations; envelope chains of 1..6 made by the library and by the harness, with removal, reordering, alteration and wrong previous MACs; 8 goroutines signing and verifying their own messages with one shared secret at the same time; the exported TsigGenerate/TsigVerify (base64 secret) and the WithProvider pair at the wall-clock time they read themselves, signing times 5 s inside and outside the window, stubs without a time (verdicts bracketed by two clock readings, else undecided); non-trivial = distinct signed message / chain",
+			"~25 field/context/structure alterations; envelope chains of 1..6 made by the library and by the harness, with removal, reordering, alteration and wrong previous MACs; 8 goroutines signing and verifying their own messages with one shared secret at the same time; the exported TsigGenerate/TsigVerify (base64 secret) and the WithProvider pair at the wall-clock time they read themselves, signing times 5 s inside and outside the window, stubs without a time, a signed outgoing transfer whose second envelope is produced 2.4 s after the first, verified on arrival with a fudge of 1 s (verdicts bracketed by two clock readings, else undecided); non-trivial = distinct signed message / chain",
 		Assumptions: []string{"the CLASS of the TSIG RR on the wire is not part of the statement's acceptance condition (the digest always uses ANY)", "now is passed explicitly through the verif hook VerifTsigVerify"},
-		MinObserved: []string{"generated", "window_checks", "alterations_rejected", "exhaustive_bitflip_messages", "chains", "server_chains", "public_window_checks", "public_alterations_rejected"},
+		MinObserved: []string{"generated", "window_checks", "alterations_rejected", "exhaustive_bitflip_messages", "chains", "server_chains", "public_window_checks", "public_alterations_rejected", "paced_chain_envelopes_verified"},
 	})
 }
